@@ -389,3 +389,7 @@ def run(chk, repo, tier):
     from .c18 import endpoint_finite
 
     endpoint_finite(chk, repo, "L6")
+    # reproducible between runs: nothing of an output is left over from the previous evaluation (= C03-R7)
+    from .c03 import r7
+
+    r7(chk, repo, models, rule="L7")
